@@ -209,8 +209,9 @@ class C07(InputProp):
                     return names[i]
             return "?"
 
-        if extra:
-            viol.append({"sig": "invented-text|%s" % "+".join(sorted(set(names)))[:60], "msg": "the cleaned tree shows %r which is not text of the document; %r" % (extra[:40], text)})
+        if extra != G.extras(doc):
+            viol.append({"sig": "%s|%s" % ("invented-text" if len(extra) >= len(G.extras(doc)) else "lost-text", "+".join(sorted(set(names)))[:60]),
+                         "msg": "besides the tokens the cleaned tree shows %r, the document has %r; %r" % (extra[:40], G.extras(doc)[:40], text)})
         if o1 != o2:
             lost = [t for t in o1 if t not in o2]
             dup = sorted(set(t for t in o2 if o2.count(t) > 1))
